@@ -665,6 +665,76 @@ var tampers = []tamper{
 }
 
 // ---------------------------------------------------------------------------------------
+// naming of a finding: the verdict comes from claim-vs-map (or honest-proof-rejected) alone;
+// the diagnosis below only chooses a stable key that separates the situations in the proof
+// data that make the difference, so that one defect gives one key whatever tampering hit it.
+
+// pathOf returns the first (significant bitmap bits) bits of the key of a query, as a 0/1 string.
+func pathOf(q *smt.QueryProof) (string, bool) {
+	h := bitmapBits(q.Bitmap)
+	if h > 8*len(q.Key) {
+		return "", false
+	}
+	b := make([]byte, h)
+	for i := 0; i < h; i++ {
+		if getBit(q.Key, i) {
+			b[i] = '1'
+		} else {
+			b[i] = '0'
+		}
+	}
+	return string(b), true
+}
+
+func sameNode(a, b *smt.QueryProof) bool {
+	if len(a.Value) == 0 && len(b.Value) == 0 {
+		return true
+	}
+	return bytes.Equal(a.Key, b.Key) && bytes.Equal(a.Value, b.Value)
+}
+
+// diagnose describes query i of the proof relative to the other queries.
+func diagnose(p *smt.Proof, i int, L int) string {
+	q := p.Queries[i]
+	if len(q.Key) != L {
+		return "proof-key-has-other-length"
+	}
+	pi, ok := pathOf(q)
+	if !ok {
+		return "other"
+	}
+	lz := ""
+	for j, o := range p.Queries {
+		if j == i {
+			continue
+		}
+		pj, ok := pathOf(o)
+		if !ok {
+			continue
+		}
+		if pi == pj && !sameNode(q, o) {
+			return "another-query-with-same-path-describes-another-node"
+		}
+		if pi != pj && strings.TrimLeft(pi, "0") == strings.TrimLeft(pj, "0") {
+			lz = "another-query-path-equal-modulo-leading-zeros"
+		}
+	}
+	if lz != "" {
+		return lz
+	}
+	return "other"
+}
+
+func diagnoseHonest(p *smt.Proof, L int) string {
+	for i := range p.Queries {
+		if d := diagnose(p, i, L); d == "another-query-path-equal-modulo-leading-zeros" {
+			return "two-query-paths-equal-modulo-leading-zeros"
+		}
+	}
+	return "other"
+}
+
+// ---------------------------------------------------------------------------------------
 // one trie state: honest proofs and tamperings
 
 type state struct {
@@ -782,7 +852,7 @@ func (s *state) checkProofs(t updater, rd smt.DBReader, nQueries, nTamper int) {
 		}
 		if !ok || err != nil {
 			k.Count("honest_rejected", 1)
-			s.viol("verify:honest-rejected:"+shape, "a generated proof does not verify against the root it was generated for", map[string]any{"queryKeys": hexAll(qk), "proof": showProof(honest), "err": fmt.Sprint(err)})
+			s.viol("verify:honest-rejected:"+diagnoseHonest(honest, s.L), "a generated proof does not verify against the root it was generated for", map[string]any{"query_shape": shape, "queryKeys": hexAll(qk), "proof": showProof(honest), "err": fmt.Sprint(err)})
 			continue
 		}
 		k.Count("honest_verified", 1)
@@ -835,6 +905,7 @@ func (s *state) checkProofs(t updater, rd smt.DBReader, nQueries, nTamper int) {
 			}
 			k.Count("tampered", 1)
 			shown := showProof(tp) // before Verify may touch it
+			shownProof := cloneProof(tp)
 			var acc bool
 			var verr error
 			pn, msg, st := guard(func() { acc, verr = smt.Verify(cpAll(tq), tp, cp(s.root), s.L) })
@@ -852,7 +923,7 @@ func (s *state) checkProofs(t updater, rd smt.DBReader, nQueries, nTamper int) {
 			}
 			switch {
 			case pn:
-				k.Count("tamper_panic(C09, no C10 verdict):"+tm.name, 1)
+				k.Count("tamper_panic(C09, no C10 verdict):"+tm.name+"@"+mon.InnermostRepoFrame(st), 1)
 				k.Sample(map[string]any{"panic_on_tampered_proof": tm.name, "panic": msg, "stack": trimStack(st), "keyLength": s.L, "queryKeys": hexAll(tq), "proof": shown})
 			case !acc:
 				if falseClaim == "" {
@@ -865,7 +936,7 @@ func (s *state) checkProofs(t updater, rd smt.DBReader, nQueries, nTamper int) {
 				}
 			case falseClaim != "":
 				k.Count("tamper_accepted_false_claim", 1)
-				s.viol("sound:"+tm.name+":"+falseClaim, "Verify accepts a proof whose claim for a query key disagrees with the map", map[string]any{
+				s.viol("sound:"+falseClaim+":"+diagnose(shownProof, falseAt, s.L), "Verify accepts a proof whose claim for a query key disagrees with the map", map[string]any{
 					"tamper": tm.name, "queryKeys": hexAll(tq), "i": falseAt, "honest_queryKeys": hexAll(qk), "honest_proof": showProof(honest), "tampered_proof": shown})
 			default:
 				k.Count("tamper_accepted_claim_true:"+tm.name, 1)
@@ -1335,7 +1406,7 @@ func main() {
 	}, func(c *mon.Ctx) {
 		c.One("selfcheck", selfcheck)
 		lengths := []int{32, 38, 1, 2, 8, 12, 32, 38}
-		c.Cases("hist", c.N(640, 24000), func(k *mon.Case) {
+		c.Cases("hist", c.N(640, 10000), func(k *mon.Case) {
 			L := lengths[k.Index%len(lengths)]
 			shape := shapes[(k.Index/len(lengths))%len(shapes)]
 			poolN := 2 + k.R.Intn(120)
@@ -1347,12 +1418,12 @@ func main() {
 			}
 			history(c, k, L, shape, poolN, c.N(6, 10), minInt(poolN, 60), c.N(4, 6), c.N(24, 40))
 		})
-		c.Cases("big", c.N(16, 160), func(k *mon.Case) {
+		c.Cases("big", c.N(16, 96), func(k *mon.Case) {
 			L := []int{32, 38, 2, 8}[k.Index%4]
 			shape := shapes[k.R.Intn(len(shapes))]
 			poolN := c.N(1500, 6000) + k.R.Intn(c.N(2500, 9000))
 			history(c, k, L, shape, poolN, 4, poolN, 4, 24)
 		})
-		c.Cases("varlen", c.N(320, 8000), varlen)
+		c.Cases("varlen", c.N(320, 5000), varlen)
 	})
 }
